@@ -202,6 +202,9 @@ def gen_tree(r, nfiles, with_big=True):
             continue
         sizes = SIZES if with_big else SIZES[:6]
         files[p] = {"size": r.choice(sizes), "seed": r.randrange(1 << 30), "mt_ns": r.randrange(1000, 5000) * 10**9 + r.choice([0, 0, 500_000_000, 999_999_999])}
+        if r.random() < 0.07:
+            # a time stamp before 1970 (restored archives, cameras with a dead clock): 1 s, 200 days, 31 years before the epoch
+            files[p]["mt_ns"] = -T0NS - r.choice([1, 86400 * 200, 86400 * 365 * 31]) * 10**9 - r.choice([0, 500_000_000])
     return sorted(dirs), files
 
 
